@@ -131,6 +131,10 @@ def run(R):
             w = rig.World(lv, db, agent_kwargs={"bulk_policy": _agent.BulkPolicy("fewer", _random.Random(i))})
             for api, order, bulk in (("bulkwalk", orders[0], 3), ("bulkwalk", orders[0], 3), ("bulkwalk", orders[-1], 10), ("pybulkwalk", orders[0], 2), ("bulkwalk", orders[0], 1)):
                 run_one(R, lv, order, db, api, bulk, "fewer", i, "reuse", w=w)
+            for how, n, api, bulk in (("stop", 1, "bulkwalk", 3), ("timeout", 1, "bulkwalk", 2), ("stop", 2, "pybulkwalk", 3), ("timeout", 2, "pybulkwalk", 2)):
+                wc.abort_walk(w, orders[0], api, bulk, how, n)
+                R.mon["bulkwalks_abandoned_midway"] += 1
+                run_one(R, lv, orders[0], db, api, bulk, "fewer", i, "reuse", w=w)
         if len(roots) > 1 and i % 4 == 0:
             # the labelled class: partial FIRST row
             run_one(R, "v2c", roots, db, "bulkwalk", BULKS[i % len(BULKS)], "partial_first", i, "partial-first")
